@@ -312,14 +312,20 @@ def wordOf : Expr → Option Bytes
   | .word w => if w = [] then none else some w
   | _ => none
 
-/-- `arithmNumberLike`: after `TrimSpace` and one optional sign, only letters, digits, `#@_`. -/
+/-- one optional sign -/
+def stripSign : Bytes → Bytes
+  | 43 :: r => r
+  | 45 :: r => r
+  | t => t
+
+/-- `arithmNumberLike`: an exact name, or — after `TrimSpace` and one optional sign — empty or a
+    digit followed by letters, digits, `#@_`. -/
 def numberLike (s : Bytes) : Bool :=
-  let t := trimSpace s
-  let t := match t with
-    | 43 :: r => r
-    | 45 :: r => r
-    | _ => t
-  t.all fun c => isNameChar c || c == 64 || c == 35
+  if validName s then true
+  else
+    match stripSign (trimSpace s) with
+    | [] => true
+    | c :: rest => (48 ≤ c && c ≤ 57) && (c :: rest).all fun c => isNameChar c || c == 64 || c == 35
 
 /-- The word rule of `Arithm`: chase names, then either `atoi` or — when at least one name was
     followed (`i > 0`) and the string is not number-like — `cfg.arithmValue`, here the parameter
@@ -523,7 +529,8 @@ def parseLevel : Nat → Nat → List Tok → PRes
         | .word _ :: _ =>
           match parseLevel fuel lvValue rest with
           | some (some x, rest') =>
-            if isArithName (some x) then some (some (.unary op false x), rest')
+            if (match x with | .unary _ true _ => true | _ => false) then none  -- `++x++`
+            else if isArithName (some x) then some (some (.unary op false x), rest')
             else
               -- like bash, `--5` / `++5` are two unary signs
               let sign : UnOp := if op = .inc then .plus else .minus
